@@ -4,6 +4,7 @@
 //
 //	-mode model (default): batch / stream / merge / list / mget cases, compared with the extracted model
 //	-mode e2e            : the whole client over a fake executor, specification verdicts only
+//	-mode routing        : which shard every kind of operation reaches, with and without partition key (C18)
 package main
 
 import (
@@ -23,7 +24,7 @@ import (
 type hxOut = hx.Out
 type hxRng = hx.Rng
 
-var mode = flag.String("mode", "model", "model|e2e")
+var mode = flag.String("mode", "model", "model|e2e|routing")
 
 const tickLinger = 15 * time.Millisecond
 
@@ -438,13 +439,13 @@ func genMgetCase(r *hx.Rng) (string, string, int, []marrival) {
 	kc := hx.Pick(r, []string{"eq", "floor", "floor", "lower", "ceil", "ceil", "higher"})
 	orig := genKey(r)
 	n := 1 + r.Intn(6)
-	secMode := hx.Pick(r, []int{0, 0, 1, 1, 2}) // none, all, mixed
+	secMode := hx.Pick(r, []int{0, 0, 1, 1, 1, 2}) // none, all (secondary-index get), mixed
 	if r.Chance(90) {
 		if secMode == 2 {
 			secMode = r.Intn(2)
 		}
 	}
-	errPct := hx.Pick(r, []int{0, 0, 15, 40, 100})
+	errPct := hx.Pick(r, []int{0, 0, 0, 15, 40, 100})
 	m := n
 	if r.Chance(15) {
 		m = r.Intn(n + 1)
@@ -459,12 +460,20 @@ func genMgetCase(r *hx.Rng) (string, string, int, []marrival) {
 		if a.status == 'o' {
 			if r.Chance(92) {
 				k := genKey(r)
+				// a record whose (primary) key is the very key that was asked for: the exact match of a plain
+				// FLOOR/CEILING get, but only a coincidence when the search key is in an index's key space
+				if r.Chance(35) {
+					k = orig
+				}
 				a.key = &k
 			}
 			if secMode == 1 || (secMode == 2 && r.Bool()) {
 				s := genKey(r)
-				if r.Chance(30) {
+				switch r.Intn(10) {
+				case 0, 1, 2:
 					s = "s" // equal secondary keys: the primary key decides
+				case 3:
+					s = orig
 				}
 				a.sec = &s
 			}
@@ -472,6 +481,37 @@ func genMgetCase(r *hx.Rng) (string, string, int, []marrival) {
 		arr = append(arr, a)
 	}
 	return kc, orig, n, arr
+}
+
+// permutations of 0..n-1 (n <= 4 here)
+func permutations(n int) [][]int {
+	if n == 0 {
+		return [][]int{{}}
+	}
+	var res [][]int
+	for _, p := range permutations(n - 1) {
+		for pos := 0; pos <= len(p); pos++ {
+			q := append(append(append([]int(nil), p[:pos]...), n-1), p[pos:]...)
+			res = append(res, q)
+		}
+	}
+	return res
+}
+
+// doMgetAllOrders: one set of per-shard answers (one per shard, <= 4 shards), every arrival order.
+func doMgetAllOrders(o *hx.Out, r *hx.Rng) {
+	kc, orig, n, arr := genMgetCase(r)
+	for n > 4 || len(arr) != n {
+		kc, orig, n, arr = genMgetCase(r)
+	}
+	for _, p := range permutations(n) {
+		ordered := make([]marrival, n)
+		for i, j := range p {
+			ordered[i] = arr[j]
+		}
+		doMgetCase(o, r, kc, orig, n, ordered)
+	}
+	o.Count("mget:all-arrival-orders")
 }
 
 // ---------------------------------------------------------------- replay
@@ -512,6 +552,15 @@ func main() {
 	defer o.Close()
 	r := hx.NewRng(f.Seed)
 
+	if *mode == "routing" {
+		if f.Replay != "" {
+			return
+		}
+		for i := 0; i < f.N && o.NViol < 20; i++ {
+			runRoutingScenario(o, r.Fork(), i)
+		}
+		return
+	}
 	if *mode == "e2e" {
 		if f.Replay != "" {
 			return
@@ -560,6 +609,11 @@ func main() {
 		"mget 0 1 floor 6b 2 E1,E2",
 		"mget 0 1 ceil 6b 3 E1,Ro:61:*:5,E3",
 		"mget 0 1 floor 6b 1 Rn:*:*:5",
+		// index get: shard A holds m (index key c), shard B holds z (index key k); FLOOR(m) in the index must be z
+		"mget 0 1 floor 6d 2 Ro:6d:63:1,Ro:7a:6b:2",
+		"mget 0 1 floor 6d 2 Ro:7a:6b:2,Ro:6d:63:1",
+		// plain get with an exact match arriving first: the answer still waits for every shard
+		"mget 0 1 ceil 6d 3 Ro:6d:*:1,Rn:*:*:2,Ro:7a:*:3",
 	} {
 		replayLine(o, r.Fork(), l)
 	}
@@ -580,6 +634,9 @@ func main() {
 		}
 		if i%3 == 0 {
 			doListCase(o, genListCase(r))
+		}
+		if i%4 == 0 {
+			doMgetAllOrders(o, r)
 		}
 		if i%25 == 0 { // each of these runs in a child process and waits 60 ms after the cancellation
 			chans, ev := genListcCase(r)
